@@ -30,6 +30,7 @@ type Val struct {
 	Fn      *ssa.Function
 	IsNilC  bool
 	Tag     Term // ghost slot tag travelling with a value loaded from a slice element
+	Direct  bool // address of a field inside an opaque struct value: T already is the field's value (read-only)
 }
 
 type threadRec struct {
@@ -475,6 +476,10 @@ func (vc *VC) loopEnv(st *State, li *loopInfo, old *Heap) *Env {
 		if v, ok := names[p.Name()]; ok && v != ssa.Value(p) {
 			if x, ok := st.vals[v]; ok && x.T != "" {
 				if _, isAlloc := v.(*ssa.Alloc); !isAlloc {
+					if e.entry == nil {
+						e.entry = map[string]TV{}
+					}
+					e.entry[p.Name()] = e.vars[p.Name()]
 					e.vars[p.Name()] = TV{T: x.T, S: goSType(v.Type())}
 				}
 			}
@@ -1158,6 +1163,20 @@ func (vc *VC) execInstr(st *State, ins ssa.Instruction) {
 	case *ssa.FieldAddr:
 		base := vc.val(st, x.X)
 		pt := x.X.Type().Underlying().(*types.Pointer).Elem()
+		if s, opaque := isOpaqueStruct(pt); opaque {
+			// &v.f where v is an opaque struct value stored somewhere: only reads are supported
+			sv := base.T
+			if base.Loc != nil {
+				sv = vc.load(st, base, x)
+			} else if !base.Direct {
+				sv = vc.load(st, base, x)
+			}
+			f := types.Unalias(pt).Underlying().(*types.Struct).Field(x.Field)
+			fn := s + "_" + f.Name()
+			vc.d.declFun(fn, []Sort{s}, sortOf(f.Type()))
+			st.vals[x] = Val{T: app(fn, sv), Typ: x.Type(), Direct: true}
+			return
+		}
 		stt := types.Unalias(pt).Underlying().(*types.Struct)
 		f := stt.Field(x.Field)
 		if !vc.isSubobjectAddr(x.X) {
@@ -1361,6 +1380,10 @@ func (vc *VC) execUnOp(st *State, x *ssa.UnOp) {
 	v := vc.val(st, x.X)
 	switch x.Op {
 	case token.MUL:
+		if v.Direct {
+			st.vals[x] = Val{T: v.T, Typ: x.Type()}
+			return
+		}
 		if v.Loc == nil {
 			if !vc.isSubobjectAddr(x.X) {
 				if _, isAlloc := x.X.(*ssa.Alloc); !isAlloc {
@@ -1531,7 +1554,12 @@ func (vc *VC) execSlice(st *State, x *ssa.Slice) {
 		}
 		// capacity is not modelled: slicing beyond len is reported
 		vc.safety(st, and(app("<=", "0", lo), app("<=", lo, hi), app("<=", hi, app("slen", base.T))), "slice-bounds", x)
-		st.vals[x] = Val{T: app("mk_slice", app("sid", base.T), app("+", app("soff", base.T), lo), app("-", hi, lo)), Typ: x.Type()}
+		nv := vc.d.freshConst("subslice", "Slice")
+		st.assume = append(st.assume, eq(nv, app("mk_slice", app("sid", base.T), app("+", app("soff", base.T), lo), app("-", hi, lo))))
+		// element i of the sub-slice is element lo+i of the base (stated on the index function so that facts about the
+		// base's elements are found when the sub-slice is read)
+		st.assume = append(st.assume, fmt.Sprintf("(forall ((i Int)) (! (= (idx %s i) (idx %s (+ %s i))) :pattern ((idx %s i))))", nv, base.T, lo, nv))
+		st.vals[x] = Val{T: nv, Typ: x.Type()}
 	case *types.Basic:
 		if hi == "" {
 			hi = app("strlen", base.T)
